@@ -32,6 +32,8 @@ inductive E where
   | join (e : E)                   -- `%{ for … }body%{ endfor }`: the iteration results, concatenated
   | tmpl (parts : List E)          -- a quoted template: literal parts are `str`, the others interpolations
   | strip (l r : Bool) (e : E)     -- an interpolation written `${~ e ~}`: which strip markers it carries
+  | heredoc (flush : Bool) (parts : List E)
+      -- `<<EOT` / `<<-EOT`: the template tokens as the scanner yields them (a literal never spans a line end)
   deriving Repr
 
 inductive V where
@@ -230,6 +232,50 @@ def normTmpl : Option E → List E → List E
       | e => e.unstrip
     p' :: normTmpl (some p) rest
 
+/-! ### flush heredocs (`<<-EOT`), parser_template.go flushHeredocTemplateParts
+
+  The smallest indentation over the lines is removed from every line.  A line's indentation is the
+  leading blanks of the literal it STARTS with; a line that starts with an interpolation or a
+  directive has indentation 0; a line of blanks only that ends in a line end is not counted and not
+  touched.  The rule works on the tokens, not on the rendered text. -/
+
+def endsNl (s : String) : Bool := s.toList.getLast? == some '\n'
+def leadBlanks (s : String) : Nat := (s.toList.takeWhile isSpaceC).length
+def blankLine (s : String) : Bool := s.toList.all isSpaceC && endsNl s
+
+def minO : Option Nat → Nat → Option Nat
+  | none, n => some n
+  | some m, n => some (min m n)
+
+/-- the smallest indentation (`none`: no line counts); `nl`: the next token starts a line -/
+def flushMin : Bool → List E → Option Nat → Option Nat
+  | _, [], m => m
+  | nl, p :: ps, m =>
+    let m' := if nl then
+        (match p with
+         | .str s => if blankLine s then m else minO m (leadBlanks s)
+         | _ => some 0)
+      else m
+    let nl' := match p with | .str s => endsNl s | _ => false
+    flushMin nl' ps m'
+
+/-- remove `n` leading characters from every counted literal that starts a line -/
+def flushCut (n : Nat) : Bool → List E → List E
+  | _, [] => []
+  | nl, p :: ps =>
+    let p' := match p with
+      | .str s => if nl && !blankLine s then E.str (String.ofList (s.toList.drop n)) else p
+      | _ => p
+    let nl' := match p with | .str s => endsNl s | _ => false
+    p' :: flushCut n nl' ps
+
+def flushParts (ps : List E) : List E :=
+  match flushMin true ps none with
+  | none => ps
+  | some n => flushCut n true ps
+
+def heredocParts (flush : Bool) (ps : List E) : List E := if flush then flushParts ps else ps
+
 /-- what a `for` iterates over: (key, value) pairs in iteration order; `none`: not iterable -/
 def elems : V → Option (List (V × V))
   | .tuple vs | .listv vs => some ((List.range vs.length).zip vs |>.map fun (i, v) => (.num i, v))
@@ -288,6 +334,8 @@ def eval (fuel : Nat) (env : Env) (e : E) : Res :=
       -- both results are evaluated first and their types unified; only the chosen one's diagnostics count
       let tr := ev env t
       let fr := ev env f
+      -- an inexact result may be a number or a comparison of numbers: its type is not known here
+      if (tr matches .inexact) || (fr matches .inexact) then .inexact else
       match unifyTy tr.ty fr.ty with
       | none => .err .dyn                                    -- inconsistent result types
       | some .other => if tr.isErr || fr.isErr || (ev env c).isErr then .err .other else .inexact
@@ -414,6 +462,7 @@ def eval (fuel : Nat) (env : Env) (e : E) : Res :=
       | .err _ => .err .str
       | r => r
     | .strip _ _ a => ev env a
+    | .heredoc fl ps => ev env (.tmplS (heredocParts fl ps))
     | .tmpl parts0 =>
       let parts := normTmpl none parts0
       match parts with
